@@ -125,3 +125,104 @@ class PropertyObserveHandler(Contract):
 
     def covers(self, cx, ov, info):
         return [("handles", lambda k, p, s: k == "return")]
+
+
+# ------------------------------------------------------------------------------------------------------------------
+# cached Property(depends_on=...): the two handlers installed by HasTraits._init_trait_property_listener
+# ------------------------------------------------------------------------------------------------------------------
+class _DependsOnHandler(Contract):
+    path = PATH
+    properties = ("C12", "C19")
+    assumptions = ("A-PY", "A-BUILTIN:dict", "trait_property_changed(name, old) recomputes the property (runs the user's getter) and "
+                   "notifies: it may raise anything")
+
+    def base_setup(self, cx):
+        cx.const("Undefined")
+        st, D, dref = instance_with_dict(cx, St())
+        self.cached, self.name = z3.String("cache_name"), z3.String("property_name")
+        self.cached_old = z3.Concat(self.cached, z3.StringVal(":old"))
+        closure = {"cached": VStr(self.cached), "cached_old": VStr(self.cached_old), "name": VStr(self.name), "Undefined": cx.const("Undefined")}
+        st = st.assume(cx.box_str(self.cached) != cx.box_str(self.cached_old))
+        return st, D, dref, closure
+
+
+@register
+class DependsOnNotify(_DependsOnHandler):
+    """notify (the handler that announces the property change after a dependency changed): the value stashed by pre_notify is
+    TAKEN OUT of the instance dictionary BEFORE the listeners are told -- trait_property_changed runs the user's getter, which may
+    raise; whatever happens the stash is gone afterwards, so that the next dependency change invalidates the cache again
+    ('every subsequent operation behaves exactly as on an object that never saw the failure')."""
+    qualname = "HasTraits._init_trait_property_listener.<locals>.notify"
+
+    def configure(self, cx, I, ov):
+        def tpc(I2, o, st, k):
+            def apply(I3, a, kw, s, kk):
+                D_now = s.heap[s.ghost["dref"].oid].payload
+                s2 = s.gset("announced", s.ghost.get("announced", ()) + ((tuple(a), D_now),))
+                e = I3.cx.fresh("getter_exc", Exc)
+                fails = I3.cx.fresh("recomputation_raises", z3.BoolSort())
+                return I3.cx.branch(s2, fails, lambda t: [("raise", VExc(sym=e, origin=("trait_property_changed",)), t.assume(*I3.cx.exc_axioms(e)))], lambda t: kk(NONE, t))
+            return k(VFunc("opaque", name="trait_property_changed", apply=apply), st)
+        cx.elem_attrs["trait_property_changed"] = tpc
+
+    def setup(self, cx, I, ov):
+        st, D, dref, closure = self.base_setup(cx)
+        st = st.gset("dref", dref)
+        return st, [VElem(z3.Const("instance", Val))], {}, dict(D=D, dref=dref, closure_env=closure, witness={})
+
+    def post(self, cx, I, ov, info, kind, payload, st):
+        D0 = info["D"]
+        D1 = st.heap[info["dref"].oid].payload
+        U = cx.const("Undefined").t
+        stash = cx.box_str(self.cached_old)
+        had = z3.And(D0[stash] != Opt.none, Opt.get(D0[stash]) != U)
+        ann = st.ghost.get("announced", ())
+        k2 = z3.Const("k!st", Val)
+        out = [("raise:" if kind == "raise" else "post:") + "the-stash-is-gone-on-every-exit", D1[stash] == Opt.none] if True else []
+        out = [(out[0], out[1])]
+        out.append(("post:announced-at-most-once-and-only-with-a-stash", z3.And(z3.BoolVal(len(ann) <= 1), z3.Implies(z3.BoolVal(len(ann) == 1), had))))
+        if kind == "raise":
+            out.append(("raise:only-the-recomputation-raises", z3.BoolVal(bool(payload.origin) and payload.origin[0] == "trait_property_changed")))
+        else:
+            out.append(("post:a-stash-is-announced", z3.Implies(had, z3.BoolVal(len(ann) == 1))))
+        for (a, D_at) in ann:
+            out.append(("post:the-stash-was-already-taken-out-when-the-listeners-were-told", D_at[stash] == Opt.none))
+            out.append(("post:announced-for-the-property-with-the-stashed-old-value", z3.And(
+                a[0].t == self.name if isinstance(a[0], VStr) and a[0].t is not None else z3.BoolVal(False),
+                as_val(cx, a[1], st) == Opt.get(D0[stash]) if len(a) > 1 else z3.BoolVal(False))))
+        out.append(("frame:nothing-but-the-stash-changes", z3.ForAll([k2], z3.Implies(k2 != stash, D1[k2] == D0[k2]))))
+        return out
+
+    def covers(self, cx, ov, info):
+        return [("announces", lambda k, p, s: k == "return" and len(s.ghost.get("announced", ())) == 1),
+                ("nothing-stashed", lambda k, p, s: k == "return" and not s.ghost.get("announced", ())),
+                ("getter-fails", lambda k, p, s: k == "raise")]
+
+
+@register
+class DependsOnPreNotify(_DependsOnHandler):
+    """pre_notify (priority handler): on the first dependency change since the last announcement the cached value is moved
+    from the cache entry to the stash (the cache is thereby invalidated); while a stash is pending nothing is touched."""
+    qualname = "HasTraits._init_trait_property_listener.<locals>.pre_notify"
+
+    def setup(self, cx, I, ov):
+        st, D, dref, closure = self.base_setup(cx)
+        return st, [VElem(z3.Const("instance", Val))], {}, dict(D=D, dref=dref, closure_env=closure, witness={})
+
+    def post(self, cx, I, ov, info, kind, payload, st):
+        if kind == "raise":
+            return [("exc-free", z3.BoolVal(False), dict(exception="%s %r" % (payload.cname or payload.sym, payload.origin)))]
+        D0 = info["D"]
+        D1 = st.heap[info["dref"].oid].payload
+        U, NONE_T = cx.const("Undefined").t, cx.const("None").t
+        stash, cache = cx.box_str(self.cached_old), cx.box_str(self.cached)
+        pending = z3.And(D0[stash] != Opt.none, Opt.get(D0[stash]) != U)
+        k2 = z3.Const("k!pn", Val)
+        return [("post:while-a-stash-is-pending-nothing-is-touched", z3.Implies(pending, D1 == D0)),
+                ("post:otherwise-the-cache-entry-is-dropped", z3.Implies(z3.Not(pending), D1[cache] == Opt.none)),
+                ("post:and-its-value-(None-if-there-was-none)-becomes-the-stash", z3.Implies(z3.Not(pending), D1[stash] == Opt.some(
+                    z3.If(D0[cache] != Opt.none, Opt.get(D0[cache]), NONE_T)))),
+                ("frame:nothing-else-changes", z3.ForAll([k2], z3.Implies(z3.And(k2 != stash, k2 != cache), D1[k2] == D0[k2])))]
+
+    def covers(self, cx, ov, info):
+        return [("handles", lambda k, p, s: k == "return")]
